@@ -27,6 +27,7 @@ class Cleanup:
     out[d,ma,la,mb,lb] = sum_{pa,pb} ca[pa,ma] na[la,pa] cb[pb,mb] nb[lb,pb] prod_ax T[o[d,ax], b[lb,ax], a[la,ax], ax, pb, pa]"""
 
     fp = True  # cross-check: the same contract on the unmodified float64 code at sampled inputs (bounded)
+    fp_nsamp = (1, 3)
 
     def fp_shapes(self, tier):
         sh = self.shapes(tier)
@@ -306,6 +307,7 @@ class OverlapInline:
     overlap of the union"""
 
     fp = True  # cross-check: the same contract on the unmodified float64 code at sampled inputs (bounded)
+    fp_nsamp = (1, 3)
 
     def fp_shapes(self, tier):
         sh = self.shapes(tier)
